@@ -56,7 +56,36 @@ def guardedLL (ll : LookupList) : Bool := ll.all Lookup.guarded
 /-- no contextual subtable anywhere in the lookup list -/
 def simpleLL (ll : LookupList) : Bool := ll.all Lookup.simple
 
-/-- the class of cases covered by `C07_no_panic_partial` -/
-def guardedCase (ll : LookupList) (_lookups : List Nat) : Bool := guardedLL ll && simpleLL ll
+/-- subtables that never change the length of the sequence (everything except the multiple
+and the ligature substitution) -/
+def Subtable.fixedLen : Subtable → Bool
+  | .gsub21 _ _ | .gsub41 _ _ => false
+  | _ => true
+
+def Lookup.fixedLen (lk : Lookup) : Bool := lk.subtables.all Subtable.fixedLen
+
+/-- the nested actions a subtable can put on the stack -/
+def Subtable.actions : Subtable → List Action
+  | .ctx1 _ rules | .ctx2 _ _ rules | .chain1 _ rules | .chain2 _ _ _ _ rules =>
+    rules.flatMap fun rs => rs.flatMap fun r => r.actions
+  | .ctx3 _ acts | .chain3 _ _ _ acts => acts
+  | _ => []
+
+/-- the lookup a nested action refers to is absent or length-preserving -/
+def actOK (ll : LookupList) (act : Action) : Bool :=
+  match ll[act.lookup]? with
+  | none => true
+  | some lk => lk.fixedLen
+
+/-- every nested action of every contextual subtable runs a length-preserving lookup
+(which may itself be contextual) -/
+def nestedFixedLL (ll : LookupList) : Bool :=
+  ll.all fun lk => lk.subtables.all fun s => s.actions.all (actOK ll)
+
+/-- the class of cases covered by the no-panic theorems: guarded, and either no contextual
+subtable (`C07_no_panic_partial`) or only length-preserving nested lookups
+(`C07_no_panic_nested_fixed`) -/
+def guardedCase (ll : LookupList) (_lookups : List Nat) : Bool :=
+  guardedLL ll && (simpleLL ll || nestedFixedLL ll)
 
 end SfntV.Shape
